@@ -31,7 +31,7 @@ def targets():
     B32 = (lambda s: ascon_ref.to_sliced32(s, "big"), lambda r: ascon_ref.from_sliced32(r, "big"))
     L64 = (lambda s: ascon_ref.to_sliced64(s, "little"), lambda r: ascon_ref.from_sliced64(r, "little"))
     RAW = (lambda s: bytes(s), lambda r: bytes(r))
-    return {
+    base = {
         "riscv32i": ("ascon-asm-riscv32i.S", ["__riscv", "__riscv_xlen=32"], lambda t: emu.RiscV(t, 32), L32),
         "riscv32e": ("ascon-asm-riscv32e.S", ["__riscv", "__riscv_xlen=32", "__riscv_32e"], lambda t: emu.RiscV(t, 32, rv32e=True), L32),
         "riscv64i": ("ascon-asm-riscv64i.S", ["__riscv", "__riscv_xlen=64"], lambda t: emu.RiscV(t, 64), L64),
@@ -45,6 +45,60 @@ def targets():
         "xtensa-windowed": ("ascon-asm-xtensa.S", ["__XTENSA__", "__XTENSA_WINDOWED_ABI__"], lambda t: emu.Xtensa(t), L64),
         "avr5": ("ascon-asm-avr5.S", ["__AVR__", "__AVR_ARCH__=5"], lambda t: emu.Avr(t), RAW),
     }
+    return _with_conditional_variants(base)
+
+
+_variants_cache = {}
+
+
+def _with_conditional_variants(base):
+    """Every macro a file tests in its own #if lines selects a different text: besides the named variants above, each
+    subset (of up to three) of the macros the file mentions - other than the backend-selection ones - is a target of its
+    own, so a branch added to a file is executed as well."""
+    import itertools
+    import re
+    key = tuple(sorted((n, v[0]) for n, v in base.items()))
+    sig = []
+    for n, (f, defs, mk, lay) in base.items():
+        try:
+            sig.append(os.path.getmtime(os.path.join(REPO, CORE, f)))
+        except OSError:
+            sig.append(0)
+    key = (key, tuple(sig))
+    if key in _variants_cache:
+        out = dict(base)
+        out.update({n: (f, d, base[b][2], base[b][3]) for n, (f, d, b) in _variants_cache[key].items()})
+        return out
+    extra = {}
+    seen = {}
+    for n, (f, defs, mk, lay) in base.items():
+        seen.setdefault(f, set()).add(frozenset(d.split("=")[0] for d in defs))
+    for n, (f, defs, mk, lay) in sorted(base.items()):
+        try:
+            text = open(os.path.join(REPO, CORE, f), errors="replace").read()
+        except OSError:
+            continue
+        macros = []
+        for line in text.splitlines():
+            m = re.match(r"^\s*#\s*(if|elif|ifdef|ifndef)\b(.*)$", line)
+            if not m:
+                continue
+            for ident in re.findall(r"[A-Za-z_]\w*", m.group(2)):
+                if ident != "defined" and not ident.startswith("ASCON_") and ident not in macros:
+                    macros.append(ident)
+        have = set(d.split("=")[0] for d in defs)
+        macros = [m for m in macros if m not in have][:3]
+        for k in range(1, len(macros) + 1):
+            for combo in itertools.combinations(macros, k):
+                fs = frozenset(have | set(combo))
+                if fs in seen[f]:
+                    continue
+                seen[f].add(fs)
+                extra[n + "+" + "+".join(combo)] = (f, list(defs) + list(combo), n)
+    _variants_cache[key] = extra
+    out = dict(base)
+    out.update({n: (f, d, base[b][2], base[b][3]) for n, (f, d, b) in extra.items()})
+    return out
 
 
 _text_cache = {}
